@@ -25,15 +25,18 @@ type c18Case struct {
 	SwAcc, SwCom   bool
 	SwBal          bool
 	Prior          string // a document opened (and analysed) before the current one: "" | main | sub | sib
+	Edit           string `json:",omitempty"` // current = main only: "drop" | "add" -- the include line is removed / typed in by a full-text change after the first analysis
 }
 
-var c18DeclAcc = []string{"my:acct", "bank", "foo:bar baz", "Активы:банк", "x"}
+// parents outside the standard categories together with declared sub-accounts that sort between a parent and
+// the sub-accounts used in postings (bank < bank:aaa < bank:fees; my:acct < my:acct:a < my:acct:sub; x < x:a < x:y)
+var c18DeclAcc = []string{"my:acct", "bank", "foo:bar baz", "Активы:банк", "x", "bank:aaa", "my:acct:a", "x:a", "my", "foo:bar baz:a"}
 var c18DeclCom = []string{"USD", "EUR", "apples", "$"}
 
 func c18Decls(r *rng, st *stats, where string) string {
 	var sb strings.Builder
 	if r.chance(55) {
-		n := r.rangeInt(1, 2)
+		n := r.rangeInt(1, 3)
 		for i := 0; i < n; i++ {
 			sb.WriteString("account " + pick(r, c18DeclAcc) + "\n")
 		}
@@ -99,6 +102,10 @@ func c18Gen(r *rng, st *stats) c18Case {
 		}
 		st.count("prior-open:" + c.Prior)
 	}
+	if c.Current == "main" && r.chance(40) {
+		c.Edit = pick(r, []string{"drop", "add"})
+		st.count("edit:" + c.Edit + "-include")
+	}
 	st.count("current:" + c.Current)
 	if c.HasRoot {
 		st.count("root:yes")
@@ -132,7 +139,20 @@ var reAcc = regexp.MustCompile(`^account '(.*)' is not declared$`)
 var reCom = regexp.MustCompile(`^commodity '(.*)' has no directive$`)
 
 func c18Run(c c18Case) (string, error) {
-	dir, err := tempWorkspace(map[string]string{"main.journal": c.Main, "sub.journal": c.Sub, "sib.journal": c.Sib})
+	// an editing history of the root: the include line is removed ("drop") or typed in ("add") after the
+	// first analysis has filled the workspace's declaration caches; the verdict is that of the final text
+	mainFirst, mainFinal := c.Main, c.Main
+	if c.Current == "main" {
+		switch c.Edit {
+		case "drop":
+			mainFinal = strings.Replace(c.Main, "include sub.journal\n", "", 1)
+		case "add":
+			mainFirst = strings.Replace(c.Main, "include sub.journal\n", "", 1)
+		}
+	}
+	edited := mainFirst != mainFinal
+	c.Main = mainFinal
+	dir, err := tempWorkspace(map[string]string{"main.journal": mainFirst, "sub.journal": c.Sub, "sib.journal": c.Sib})
 	if err != nil {
 		return "", err
 	}
@@ -154,9 +174,21 @@ func c18Run(c c18Case) (string, error) {
 			return "", fmt.Errorf("analysis did not finish")
 		}
 	}
-	_ = srv.DidOpen(ctx, &protocol.DidOpenTextDocumentParams{TextDocument: protocol.TextDocumentItem{URI: u, Text: text}})
+	first := text
+	if edited {
+		first = mainFirst
+	}
+	_ = srv.DidOpen(ctx, &protocol.DidOpenTextDocumentParams{TextDocument: protocol.TextDocumentItem{URI: u, Text: first, Version: 1}})
 	if !quiesce(base) {
 		return "", fmt.Errorf("analysis did not finish")
+	}
+	if edited {
+		_ = srv.DidChange(ctx, &protocol.DidChangeTextDocumentParams{
+			TextDocument:   protocol.VersionedTextDocumentIdentifier{TextDocumentIdentifier: protocol.TextDocumentIdentifier{URI: u}, Version: 2},
+			ContentChanges: []protocol.TextDocumentContentChangeEvent{{Text: text}}})
+		if !quiesce(base) {
+			return "", fmt.Errorf("analysis did not finish")
+		}
 	}
 	pub, ok := stub.lastPublished(u)
 	if !ok {
@@ -168,10 +200,13 @@ func c18Run(c c18Case) (string, error) {
 	var wsAcc, wsCom, treeAcc, treeCom []string
 	if c.HasRoot {
 		a1, c1 := declsOf(mainJ)
-		a2, c2 := declsOf(subJ)
-		wsAcc, wsCom = append(a1, a2...), append(c1, c2...)
+		wsAcc, wsCom = a1, c1
+		if strings.Contains(c.Main, "include sub.journal\n") { // the root's tree as the final text of the root has it
+			a2, c2 := declsOf(subJ)
+			wsAcc, wsCom = append(a1, a2...), append(c1, c2...)
+		}
 	}
-	if c.Current == "main" { // include tree of the open document (beyond itself)
+	if c.Current == "main" && strings.Contains(c.Main, "include sub.journal\n") { // include tree of the open document (beyond itself)
 		treeAcc, treeCom = declsOf(subJ)
 	}
 	// transaction index of a diagnostic line
